@@ -217,7 +217,19 @@ fn arg_tys(tys: &[&'static str]) -> Vec<&'static str> {
 }
 
 fn field_atom(d: &mut Dice, l: &mut LitSrc, a: &Avail) {
-    match d.weighted(&[5, 3, 2, 2]) {
+    match d.weighted(&[5, 3, 2, 2, 1]) {
+        // `{name:.*}`: the precision is taken from the next implicit positional argument, which later `{}` must skip
+        4 if a.tys.contains(&"") && l.pos.len() == l.counter => {
+            l.pos.push("2".into());
+            l.counter += 1;
+            let mut sp = Spec::bare("");
+            sp.prec = Cnt::Star;
+            l.direct_field(&a.name, sp)
+        }
+        4 => {
+            let sp = field_spec(d, &a.tys);
+            l.direct_field(&a.name, sp)
+        }
         0 => {
             let sp = field_spec(d, &a.tys);
             l.direct_field(&a.name, sp)
